@@ -26,9 +26,13 @@ def gen_scenario(rnd, sid):
     ops.append({"op": "new", "id": 3, "d": {"kind": "probe"}})
     ops.append({"op": "append", "p": 1, "h": 3, "via": "append"})
     cats = catrules.probe_categories(rnd, rules, pool)
-    for c in cats:
-        for t in catrules.ALLTYPES:
-            ops.append({"op": "msg", "type": t, "text": [109], "cat": u(c)})
+    # the filter object lives across messages: probe in random order, and some (category, type) pairs again later,
+    # so that a verdict that depends on what the filter has seen before is noticed
+    probes = [(c, t) for c in cats for t in catrules.ALLTYPES]
+    rnd.shuffle(probes)
+    probes += [rnd.choice(probes) for _ in range(max(3, len(probes) // 3))]
+    for c, t in probes:
+        ops.append({"op": "msg", "type": t, "text": [109], "cat": u(c)})
     return {"id": sid, "ops": ops}, rules, text, cats
 
 
